@@ -393,7 +393,11 @@ class LoopChecker:
         for var in sorted(_assigned_names(body)):
             inc = self._step(body, var, ast.Add)
             if inc is not None and inc.lo is not None and inc.lo >= 1 and self._step_on_every_path(body[1:], var):
-                if "len(" in ttxt and var in {x.id for x in ast.walk(test) if isinstance(x, ast.Name)}:
+                from .linfacts import ge0_facts
+
+                # the test, when false, bounds var from above by a length:  len(x) - var - c >= 0
+                bounded = any(terms.get(var, 0) < 0 and any(k.startswith("len(") and v > 0 for k, v in terms.items()) for terms, _ in ge0_facts([(test, False)]))
+                if bounded:
                     return f"exhaustion exit '{ttxt}' precedes every iteration; {var} += {inc}"
         # shape 2: if not view: raise ; ... view = view[k:], k >= 1
         if isinstance(test, ast.UnaryOp) and isinstance(test.op, ast.Not) and isinstance(test.operand, ast.Name):
@@ -401,6 +405,9 @@ class LoopChecker:
             cons = self._consumes(body[1:], var)
             if cons:
                 return f"exhaustion exit 'if not {var}' precedes every iteration; {cons}"
+            call = self._consuming_call(body[1:], var)
+            if call:
+                return f"exhaustion exit 'if not {var}' precedes every iteration; {call}"
         return None
 
 
@@ -414,8 +421,13 @@ def consumed_at_most_len(world: World, f: Func) -> bool:
             lc = LoopChecker(world, f)
             for loop in [x for x in body_nodes(f.node) if isinstance(x, ast.While)]:
                 scan = lc._scan(loop)
-                if scan and f"len({p}) < {idx} + 1" in unparse(loop).replace("(" + idx + " + 1)", idx + " + 1"):
-                    return True
+                if scan and loop.body and isinstance(loop.body[0], ast.If):
+                    # the exhaustion test, when it does not raise, proves idx < len(buf) before the octet is consumed
+                    from .linfacts import ge0_facts, goal_ge, proves_ge0
+
+                    facts = ge0_facts([(loop.body[0].test, False)])
+                    if proves_ge0(facts, goal_ge(ast.parse(f"len({p})", mode="eval").body, ast.Name(id=idx, ctx=ast.Load()), 1)):
+                        return True
     return False
 
 
